@@ -187,6 +187,10 @@ def scan_trusted(unit):
                             if mo.group(1) == 'fn' and cur_impl:
                                 desc = 'fn %s::%s' % (cur_impl, mo.group(2))
                             break
+                    mi = re.search(r'//\s*vx-import:(\w+)', t)
+                    if mi:
+                        # not an assumption of the whole check: the same contract text is an obligation of that unit
+                        kind = 'imported contract (proved in unit %s)' % mi.group(1)
                 elif kind == 'assume_specification':
                     mo = re.search(r'assume_specification.*?\[\s*(.*?)\s*\]\s*\(', t)
                     desc = mo.group(1).strip() if mo else desc
